@@ -59,6 +59,12 @@ def step (st : St) (ts : List String) : St × List String :=
       let now := st.now + dt
       ({ st with now }, (tick st.streams now).map showSR)
     | none => (st, ["bad-op"])
+  | some "step" =>
+    -- the configured (wall) clock is stepped by `ns`: every later instant the interceptor reads is moved; the ticker
+    -- is monotonic, so nothing else changes
+    match getInt fs "ns" with
+    | some ns => ({ st with now := st.now + ns }, [])
+    | none => (st, ["bad-op"])
   | some "unbind" =>
     match getNat fs "ssrc" with
     | some ssrc =>
@@ -177,6 +183,12 @@ def step (st : St) (ts : List String) : St × List String :=
     match ts with
     | [_] => adv st (st.nextTick - st.now).toNat
     | _ => (st, ["bad-op"])
+  | some "step" =>
+    -- the configured (wall) clock is stepped by `ns`; the ticker is monotonic: the next tick is as far away as it was,
+    -- and reads the stepped clock
+    match getInt fs "ns" with
+    | some ns => ({ st with now := st.now + ns, nextTick := st.nextTick + ns }, [])
+    | none => (st, ["bad-op"])
   | some "jumprun" =>
     match getNat fs "ssrc", getNat fs "seq", getNat fs "ts", getNat fs "n", getNat fs "step", getNat fs "tsstep",
       getNat fs "dt", getNat fs "keep" with
